@@ -21,16 +21,38 @@ structure HInv (m : Mem α) : Prop where
   fresh : Fresh m
   tmp : m.buf .tmp = some [.raw]
 
-/-- single-step contract: from a valid state satisfying the precondition the operation yields the specified list, or throws a
-    C++ exception leaving the old list (strong) or some valid list (basic); never a lifetime fault -/
-def StepPost (cfg : Cfg) (Ok : VB → Prop) (c : Nat) (m : Mem α) (xs : List α) (o : OpSpec α) : Except Stop Unit → Mem α → Prop :=
+/-- single-step contract: from a valid state (words `w`) satisfying the precondition the operation yields the specified list, or
+    throws a C++ exception leaving the old list (strong) or some valid list (basic); never a lifetime fault; nothing outside the
+    container is touched and no heap block is left behind (`FrameL`: `FrameG` and `NoLeak`) -/
+def OpStepPost (cfg : Cfg) (Ok : VB → Prop) (c : Nat) (m : Mem α) (w : VB) (xs : List α) (o : OpSpec α) :
+    Except Stop Unit → Mem α → Prop :=
   fun res m' => ((res = .ok () ∧ VRep cfg Ok c m' (o.spec xs)) ∨
                  (∃ e xs'', res = .error (.exc e) ∧ VRep cfg Ok c m' xs'' ∧ (o.strong = true → xs'' = xs)))
-                ∧ HInv m' ∧ m'.cat = m.cat
+                ∧ HInv m' ∧ m'.cat = m.cat ∧ FrameL cfg c (regionOf cfg c w) m m'
 
 def OpOK (cfg : Cfg) (Ok : VB → Prop) (o : OpSpec α) : Prop :=
   ∀ (m : Mem α) (c : Nat) (xs : List α) (w : VB), VRepW cfg Ok c m xs w → HInv m → o.pre cfg xs → (o.nonTC = true → m.cat ≠ .tc) →
-    Post (o.run cfg c) m (StepPost cfg Ok c m xs o)
+    Post (o.run cfg c) m (OpStepPost cfg Ok c m w xs o)
+
+/-- history-level leak freedom: every heap block with identifier `≥ n0` (the value of `nextId` when the history started) that
+    exists is the block the container owns -/
+def Owned (cfg : Cfg) (c : Nat) (n0 : Nat) (m : Mem α) : Prop :=
+  ∀ id, n0 ≤ id → (m.buf (.blk id)).isSome → ∃ w, m.ws[c]? = some w ∧ regionOf cfg c w = .blk id ∧ 0 < cfg.ops.capacity w
+
+/-- at the start of a history no block with an identifier `≥ nextId` exists -/
+theorem Owned.start (cfg : Cfg) (c : Nat) {m : Mem α} (hf : Fresh m) : Owned cfg c m.nextId m := by
+  intro id hge hid
+  have := hf id hid
+  omega
+
+/-- a leak-free step preserves it: a block that exists afterwards and is not the container's existed before and was not the
+    container's -/
+theorem Owned.step {cfg : Cfg} {c n0 : Nat} {m m' : Mem α} (h : Owned cfg c n0 m) (hn : NoLeak cfg c m m') : Owned cfg c n0 m' := by
+  intro id hge hid
+  rcases hn id hid with ⟨e0, n1, _⟩ | ⟨_, _, o2⟩ | ⟨_, o2⟩
+  · exact absurd (h id hge e0) n1
+  · exact o2
+  · exact o2
 
 /-- run a history; a C++ exception ends the operation that threw it, not the history -/
 def runHist (cfg : Cfg) (c : Nat) : List (OpSpec α) → M α Unit
@@ -52,37 +74,56 @@ def Safe (cfg : Cfg) : List (OpSpec α) → List α → Prop
   | [], _ => True
   | o :: rest, xs => o.pre cfg xs ∧ Safe cfg rest (o.spec xs) ∧ (∀ xs'', (o.strong = true → xs'' = xs) → Safe cfg rest xs'')
 
-theorem hist_post (cfg : Cfg) (Ok : VB → Prop) (c : Nat) : ∀ (ops : List (OpSpec α)) (m : Mem α) (xs : List α),
-    (∀ o ∈ ops, OpOK cfg Ok o) → VRep cfg Ok c m xs → HInv m → Safe cfg ops xs → (∀ o ∈ ops, o.nonTC = true → m.cat ≠ .tc) →
-    Post (runHist cfg c ops) m (fun res m' => res = .ok () ∧ ∃ ys, Trace cfg ops xs ys ∧ VRep cfg Ok c m' ys ∧ HInv m' ∧ m'.cat = m.cat) := by
+/-- the history theorem with an additional invariant `I` of the memory that every framed, leak-free step on the container
+    preserves (the step may use that the container was valid before and is valid after it) -/
+theorem hist_post_inv (cfg : Cfg) (Ok : VB → Prop) (c : Nat) (I : Mem α → Prop)
+    (hI : ∀ (m m' : Mem α) (w : VB) (xs xs' : List α), VRepW cfg Ok c m xs w → VRep cfg Ok c m' xs' → HInv m → I m →
+      FrameL cfg c (regionOf cfg c w) m m' → I m') :
+    ∀ (ops : List (OpSpec α)) (m : Mem α) (xs : List α),
+    (∀ o ∈ ops, OpOK cfg Ok o) → VRep cfg Ok c m xs → HInv m → Safe cfg ops xs → (∀ o ∈ ops, o.nonTC = true → m.cat ≠ .tc) → I m →
+    Post (runHist cfg c ops) m (fun res m' => res = .ok () ∧ ∃ ys, Trace cfg ops xs ys ∧ VRep cfg Ok c m' ys ∧ HInv m' ∧ m'.cat = m.cat
+      ∧ I m') := by
   intro ops
   induction ops with
   | nil =>
-    intro m xs _ hv hi _ _
-    exact ⟨rfl, xs, Trace.nil xs, hv, hi, rfl⟩
+    intro m xs _ hv hi _ _ hinv
+    exact ⟨rfl, xs, Trace.nil xs, hv, hi, rfl, hinv⟩
   | cons o rest ih =>
-    intro m xs hok hv hi hs hcat
+    intro m xs hok hv hi hs hcat hinv
     obtain ⟨w, hw⟩ := hv
     obtain ⟨hpre, hsok, hsexc⟩ := hs
     have hstep := hok o (by simp) m c xs w hw hi hpre (hcat o (by simp))
     simp only [runHist]
     refine Post.bind (Q1 := fun res m1 => res = .ok () ∧ ∃ xs1, ((xs1 = o.spec xs) ∨ (o.strong = true → xs1 = xs)) ∧
-        VRep cfg Ok c m1 xs1 ∧ HInv m1 ∧ m1.cat = m.cat ∧ Safe cfg rest xs1 ∧ (∀ ys, Trace cfg rest xs1 ys → Trace cfg (o :: rest) xs ys))
+        VRep cfg Ok c m1 xs1 ∧ HInv m1 ∧ m1.cat = m.cat ∧ I m1 ∧ Safe cfg rest xs1
+          ∧ (∀ ys, Trace cfg rest xs1 ys → Trace cfg (o :: rest) xs ys))
       (Post.tryCatch hstep ?_ ?_) ?_ ?_
-    · rintro _ m1 ⟨hq, hi1, hc1⟩
+    · rintro _ m1 ⟨hq, hi1, hc1, hfr1⟩
       rcases hq with ⟨_, hv1⟩ | ⟨e, xs'', he, _, _⟩
-      · exact ⟨rfl, _, Or.inl rfl, hv1, hi1, hc1, hsok, fun ys ht => Trace.ok o rest xs ys ht⟩
+      · exact ⟨rfl, _, Or.inl rfl, hv1, hi1, hc1, hI m m1 w xs _ hw hv1 hi hinv hfr1, hsok, fun ys ht => Trace.ok o rest xs ys ht⟩
       · cases he
-    · rintro e m1 ⟨hq, hi1, hc1⟩
+    · rintro e m1 ⟨hq, hi1, hc1, hfr1⟩
       rcases hq with ⟨he, _⟩ | ⟨e', xs'', he, hv1, hst⟩
       · cases he
       · injection he with he; subst he
-        exact ⟨rfl, xs'', Or.inr hst, hv1, hi1, hc1, hsexc xs'' hst, fun ys ht => Trace.thrown o rest xs xs'' ys hst ht⟩
-    · rintro _ m1 ⟨_, xs1, _, hv1, hi1, hc1, hs1, htr⟩
-      refine Post.mono (ih m1 xs1 (fun o' ho' => hok o' (by simp [ho'])) hv1 hi1 hs1 (fun o' ho' hn => by rw [hc1]; exact hcat o' (by simp [ho']) hn)) ?_
-      rintro res m2 ⟨hr, ys, ht, hv2, hi2, hc2⟩
-      exact ⟨hr, ys, htr ys ht, hv2, hi2, hc2.trans hc1⟩
+        exact ⟨rfl, xs'', Or.inr hst, hv1, hi1, hc1, hI m m1 w xs _ hw hv1 hi hinv hfr1, hsexc xs'' hst,
+          fun ys ht => Trace.thrown o rest xs xs'' ys hst ht⟩
+    · rintro _ m1 ⟨_, xs1, _, hv1, hi1, hc1, hinv1, hs1, htr⟩
+      refine Post.mono (ih m1 xs1 (fun o' ho' => hok o' (by simp [ho'])) hv1 hi1 hs1
+        (fun o' ho' hn => by rw [hc1]; exact hcat o' (by simp [ho']) hn) hinv1) ?_
+      rintro res m2 ⟨hr, ys, ht, hv2, hi2, hc2, hinv2⟩
+      exact ⟨hr, ys, htr ys ht, hv2, hi2, hc2.trans hc1, hinv2⟩
     · rintro e m1 ⟨he, _⟩; cases he
+
+/-- the history theorem: no lifetime fault, a final state the abstract semantics allows, and history-level leak freedom: if
+    every block allocated since `nextId` was `n0` is the container's at the start (e.g. `n0 = m.nextId`: `Owned.start`), it is
+    so at the end — whatever the history does and whatever throws, no stray block is left behind -/
+theorem hist_post (cfg : Cfg) (Ok : VB → Prop) (c : Nat) (n0 : Nat) (ops : List (OpSpec α)) (m : Mem α) (xs : List α)
+    (hok : ∀ o ∈ ops, OpOK cfg Ok o) (hv : VRep cfg Ok c m xs) (hi : HInv m) (hs : Safe cfg ops xs)
+    (hcat : ∀ o ∈ ops, o.nonTC = true → m.cat ≠ .tc) (ho : Owned cfg c n0 m) :
+    Post (runHist cfg c ops) m (fun res m' => res = .ok () ∧ ∃ ys, Trace cfg ops xs ys ∧ VRep cfg Ok c m' ys ∧ HInv m' ∧ m'.cat = m.cat
+      ∧ Owned cfg c n0 m') :=
+  hist_post_inv cfg Ok c (Owned cfg c n0) (fun _ _ _ _ _ _ _ _ h hfr => h.step hfr.noLeak) ops m xs hok hv hi hs hcat ho
 
 end AmcVerif
 
@@ -100,20 +141,20 @@ theorem HInv.frame {c : Nat} {cfg : Cfg} {w : VB} {m m' : Mem α} (hi : HInv m) 
   ⟨h.fresh hi.fresh, by rw [h.tmp]; exact hi.tmp⟩
 
 /-- a strong-guarantee operation theorem is a single-step contract -/
-theorem StepPost.ofStrong {cfg : Cfg} {Ok : VB → Prop} {c : Nat} {m : Mem α} {w : VB} {xs : List α} {o : OpSpec α}
+theorem OpStepPost.ofStrong {cfg : Cfg} {Ok : VB → Prop} {c : Nat} {m : Mem α} {w : VB} {xs : List α} {o : OpSpec α}
     (hi : HInv m) {res : Except Stop Unit} {m' : Mem α} (h : StrongPost cfg Ok c m w xs (o.spec xs) () res m') :
-    StepPost cfg Ok c m xs o res m' := by
+    OpStepPost cfg Ok c m w xs o res m' := by
   obtain ⟨hq, hfr⟩ := h
-  refine ⟨?_, hi.frame hfr, hfr.cat⟩
+  refine ⟨?_, hi.frame hfr.toFrameG, hfr.cat, hfr⟩
   rcases hq with hq | ⟨e, he, hv⟩
   · exact Or.inl hq
   · exact Or.inr ⟨e, xs, he, hv, fun _ => rfl⟩
 
-theorem StepPost.ofBasic {cfg : Cfg} {Ok : VB → Prop} {c : Nat} {m : Mem α} {w : VB} {xs : List α} {o : OpSpec α}
+theorem OpStepPost.ofBasic {cfg : Cfg} {Ok : VB → Prop} {c : Nat} {m : Mem α} {w : VB} {xs : List α} {o : OpSpec α}
     (hb : o.strong = false) (hi : HInv m) {res : Except Stop Unit} {m' : Mem α} (h : BasicPost cfg Ok c m w (o.spec xs) () res m') :
-    StepPost cfg Ok c m xs o res m' := by
+    OpStepPost cfg Ok c m w xs o res m' := by
   obtain ⟨hq, hfr⟩ := h
-  refine ⟨?_, hi.frame hfr, hfr.cat⟩
+  refine ⟨?_, hi.frame hfr.toFrameG, hfr.cat, hfr⟩
   rcases hq with hq | ⟨e, xs'', he, hv⟩
   · exact Or.inl hq
   · exact Or.inr ⟨e, xs'', he, hv, fun hs => by rw [hb] at hs; cases hs⟩
